@@ -155,14 +155,14 @@ func runCase(run *sim.Run, id int) {
 			r := (d + 1 + rng.Intn(n-1)) % n
 			c.cheatDealer[d] = r
 			c.cheated[r] = true
-			c.cheatMode[d] = rng.Intn(3)
+			c.cheatMode[d] = rng.Intn(6)
 			if n >= 3 && rng.Chance(1, 3) { // second cheater, other victim
 				d2 := (d + 1) % n
 				r2 := (d2 + 1 + rng.Intn(n-1)) % n
 				if _, dup := c.cheatDealer[d2]; !dup && d2 != r {
 					c.cheatDealer[d2] = r2
 					c.cheated[r2] = true
-					c.cheatMode[d2] = rng.Intn(3)
+					c.cheatMode[d2] = rng.Intn(6)
 				}
 			}
 		case 2: // false complaint about a correct share
@@ -326,6 +326,20 @@ func runCase(run *sim.Run, id int) {
 				slot := slotOf(tss.MemberID(i+1), tss.MemberID(r+1))
 				enc := append(tss.EncSecretShare{}, msg.Round2Info.EncryptedSecretShares[slot]...)
 				switch c.cheatMode[i] {
+				case 3, 4, 5: // well-formed ciphertext whose plaintext is a boundary value: 0, the group order N, 2^256-1
+					plain := pad32(ref.EvalPoly(coefs[i], uint64(r+1)).Bytes())
+					target := make([]byte, 32)
+					switch c.cheatMode[i] {
+					case 4:
+						target = pad32(ref.N().Bytes())
+					case 5:
+						for k := range target {
+							target[k] = 0xff
+						}
+					}
+					for k := 0; k < 32; k++ {
+						enc[k] ^= plain[k] ^ target[k]
+					}
 				case 0:
 					enc[rng.Intn(32)] ^= 0x01 // corrupted ciphertext
 				case 1:
@@ -540,6 +554,12 @@ func slotOf(from, to tss.MemberID) int {
 	return s
 }
 
+func pad32(b []byte) []byte {
+	out := make([]byte, 32)
+	copy(out[32-len(b):], b)
+	return out
+}
+
 func mustCtx(b []byte, err error) []byte {
 	if err != nil {
 		panic(err)
@@ -649,7 +669,7 @@ func interleave(r *sim.Rng, exps []txExp) []txExp {
 func main() {
 	run := sim.NewRun("C04", "exploration")
 	run.SetRule("one case = one DKG (n 1..7, up to 20 in thorough; t 1..n) by signed txs with shuffled submission orders across blocks and one " +
-		"deviation family: corrupted encrypted share(s) (3 modes, 1-2 cheating dealers), false complaint with a valid proof, malformed complaints " +
+		"deviation family: corrupted encrypted share(s) (6 modes incl. plaintexts 0 / N / 2^256-1, 1-2 cheating dealers), false complaint with a valid proof, malformed complaints " +
 		"(wrong key-sym / signature / unknown respondent), silence at round 1/2/3, plus per-message hostile variants (wrong-length commitments, swapped or bad " +
 		"signatures, foreign member id, duplicates, out-of-round, non-member). distinct = distinct (n,t,deviation) tuples")
 	run.Assume("'fewer than threshold cannot sign' is secrecy and not observable; only the algebraic consistency is checked",
